@@ -415,6 +415,40 @@ def oracle(ctx):
         elif real.get('out') != exp:
             ctx.violation('implicit translation: what the translation function returns is not what appears in the output', inp,
                           expected=exp, actual=real)
+    # the translation function that is called is the one of *this* render() call: several calls on one template object with
+    # different functions (with and without an encoding in effect, on the template or on the call)
+    from chameleon import PageTemplate
+    seq_src = '<p i18n:translate="">Hello</p><i title="T" i18n:attributes="title">x</i><b>${obj}</b>'
+
+    class _O:
+        def __str__(self):
+            return 'obj'
+    for ctor in ({}, {'encoding': 'utf-8'}, {'encoding': 'latin-1'}):
+        for call_enc in (None, 'utf-8'):
+            tpl = PageTemplate(seq_src, **ctor)
+            for rnd in range(3):
+                tag = 'T%d' % rnd
+                seen = []
+
+                def tr(msgid, domain=None, mapping=None, context=None, target_language=None, default=None, _tag=tag, _seen=seen):
+                    _seen.append(msgid if isinstance(msgid, str) else type(msgid).__name__)
+                    return '[%s:%s]' % (_tag, msgid) if isinstance(msgid, str) else msgid
+                kw = {'translate': tr}
+                if call_enc:
+                    kw['encoding'] = call_enc
+                ctx.count('evaluations')
+                nt += 1
+                try:
+                    out = tpl(obj=_O(), **kw)
+                except Exception as e:
+                    out = 'raised %s' % type(e).__name__
+                want = '<p>[%s:Hello]</p><i title="[%s:T]">x</i><b>obj</b>' % (tag, tag)
+                if out != want or seen != ['Hello', 'T', '_O']:
+                    ctx.violation('the translation function passed to this render() call must be the one that is called (once per message), '
+                                  'also on the second and third call on one template object', {'src': seq_src, 'constructor': ctor,
+                                  'render_encoding': call_enc, 'call_number': rnd + 1}, expected={'out': want, 'calls': ['Hello', 'T', '_O']},
+                                  actual={'out': out, 'calls': seen})
+                    break
     # inserted values that are not str / number / __html__ are offered to the translation function
     from chameleon import PageTemplate
 
